@@ -81,5 +81,12 @@ def grid_kwargs(settings):
     return kw
 
 
-def data_array(values, dims, name=None):
-    return xr.DataArray(np.asarray(values, dtype=np.float64), dims=list(dims), name=name)
+def data_array(values, dims, name=None, layout="C"):
+    """layout: 'C' (contiguous), 'F' (Fortran order) or 'view' (a transposed, non-contiguous view of an array stored
+    in reversed dimension order) - the values and dims are the same in all three."""
+    a = np.asarray(values, dtype=np.float64)
+    if layout == "F":
+        a = np.asfortranarray(a)
+    elif layout == "view" and a.ndim >= 2:
+        a = np.ascontiguousarray(a.transpose()).transpose()
+    return xr.DataArray(a, dims=list(dims), name=name)
